@@ -1,7 +1,8 @@
 package app_test
 
-// Minimal histories against the REAL incentives + lockup keepers that exhibit the three C09 known findings
-// (F-C09-receiver, F-C09-finish, F-C09-spam).  Not part of ./check; run with
+// Minimal histories against the REAL incentives + lockup keepers that exhibit the C09 known findings F19 (receiver) and
+// F21 (spam rule), and the history of the former finding F20 (finish; repaired by repository fix 21bb9c1bc7: the gauge now
+// stays active, pays when a lock appears, and the top-up of the finished gauge is rejected).  Not part of ./check; run with
 //   VERIF_WITNESS=1 .bin/app.test -test.run TestC09Witness -test.v
 // Each sub-history prints what the chain did next to what the property promises.
 
@@ -99,7 +100,7 @@ func TestC09Witness(t *testing.T) {
 		lock(a, 100, time.Hour)
 		ba := h.App.BankKeeper.GetBalance(h.Ctx, a, base).Amount
 		epoch(ident)
-		t.Logf("F-C09-finish: next epoch WITH a lock pays %s (the 1000 stay in the module account); top-up still accepted: %v",
+		t.Logf("F-C09-finish: next epoch WITH a lock pays %s (before 21bb9c1bc7: 0, the 1000 stayed in the module account); top-up of the now finished gauge: %v",
 			h.App.BankKeeper.GetBalance(h.Ctx, a, base).Amount.Sub(ba), func() error {
 				c := sdk.NewCoins(coin(base, 5))
 				h.FundAcc(creator, c)
